@@ -1,5 +1,5 @@
 """C02 - Uni: delivery order and capacity behave as one atomic bounded FIFO queue (necessary structural conditions)."""
-import ts, dag, guards, lockrules, roles as R, facts as F
+import ts, dag, guards, lockrules, util, roles as R, facts as F
 from dag import strip_casts, show
 from mir import Body
 
@@ -243,21 +243,13 @@ def _signed(e):
     return e[0] == "cast" and e[1] in ("i32", "i64", "isize")
 
 def _returns_variant(body, start, variant):
-    """every Return reachable from `start` (not passing a back edge) assigns _0 = <variant>"""
-    seen = set(); st = [start]; hit = False
-    back = set(body.back_edges)
-    while st:
-        b = st.pop()
-        if b in seen: continue
-        seen.add(b)
-        done = False
+    """every value the function can return on a path through `start` (back edges not followed) is <variant>; flag-aware: an Option answered by an
+    extracted / inlined helper and matched right away does not make the other arm reachable"""
+    hit = False
+    for b in util.flag_paths(body, dag.Dag(body), start, follow_back=False):
         for s_ in body.stmts(b):
             if s_[0] == "A" and not s_[1]["p"] and s_[1]["l"] == 0:
                 rv = s_[2]
                 if not (rv[0] == "Agg" and rv[1][0] == "Adt" and rv[1][3] == variant): return False
-                hit = True; done = True
-        if done: continue
-        for s2 in body.succ(b):
-            if (b, s2) in back: continue
-            st.append(s2)
+                hit = True
     return hit
